@@ -260,6 +260,17 @@ def _legal(c):
     return True
 
 
+# functions of the implementation this property is anchored in: their line coverage under the correspondence cases is
+# measured on the staged copy and reported in the evidence (implementation_line_coverage)
+ANCHORS = [
+    "datascope/utility/provenance.py:Provenance.__setitem__",
+    "datascope/utility/provenance.py:Provenance.__getitem__",
+    "datascope/utility/provenance.py:Provenance.__delitem__",
+    "datascope/utility/provenance.py:Provenance.insert",
+    "datascope/utility/provenance.py:Provenance.query",
+    "datascope/utility/provenance.py:Provenance.__len__",
+]
+
 MANIFEST = {
     "text": "Proof (refinement, induction over the edit history): C19_refines_list / C19_step -- for every start list, "
             "every history of legal edits (assignment, insert, append, del, pop, extend/+=, slice deletion, reverse "
